@@ -166,8 +166,7 @@ def phase_replay(ctx, dot, nproc):
                                            "covered": 0, "git_calls": 0, "failed_clauses": 0})
         for k in s:
             s[k] += r[k]
-        for sig, what, obj in r["findings"]:
-            ctx.violation(sig, what, obj)
+        _G["findings"] += r["findings"]
         for dmsg in r["drift"]:
             ctx.drift_event(dmsg)
         ctx.cov["drift"] += r["ndrift"] - len(r["drift"])
@@ -227,8 +226,7 @@ def collect_validation(ctx, vfuts, traces):
     for fut in vfuts:
         findings, drift, clean = fut.result()
         total_clean += clean
-        for f in findings:
-            ctx.violation(f.sig, f.what, f.replay)
+        _G["findings"] += [(f.sig, f.what, f.replay) for f in findings]
         for dmsg in drift:
             ctx.drift_event(dmsg)
     nev = sum(len(o["ev"]) for o, _ in traces)
@@ -243,11 +241,68 @@ def collect_validation(ctx, vfuts, traces):
     ctx.log(f"traces: {total_clean}/{len(traces)} executions without a failed property clause")
 
 
+CONFIRMABLE = ("result", "state", "pack-visible", "reopen-visible", "peeled", "git-view")
+
+
+def report_findings(ctx):
+    """Report what the replay and the traces found.  The containers are sequential and deterministic:
+    a divergence that is not on the list of known findings is first re-executed from scratch (same
+    calls, fresh container, judged by RefMapTrace) and reported as VIOLATION only if it shows again.
+    One that does not is an effect of the environment (this happened on a machine short of memory:
+    read_loose_ref swallows the OSError and answers None); it is printed and counted, not alarmed."""
+    import fnmatch
+    from .. import c16_trace as T
+    from ..c16_backends import GitView
+    best = {}
+    for sig, what, obj in _G["findings"]:
+        old = best.get(sig)
+        if old is None or len(obj.get("calls", ())) < len(old[1].get("calls", ())):
+            best[sig] = (what, obj)
+    pats = [k.get("signature", "") for k in ctx.known if k.get("status", "open") == "open"]
+    check = []
+    for sig, (what, obj) in sorted(best.items()):
+        listed = any(sig == p or fnmatch.fnmatchcase(sig, p) for p in pats)
+        clause = sig.split("|")[1] if sig.count("|") >= 2 else ""
+        confirmable = clause in CONFIRMABLE or (clause == "read" and "__contains__" not in sig)
+        if listed or not confirmable or not obj.get("calls"):
+            ctx.violation(sig, what, obj)
+        else:
+            check.append((sig, what, obj))
+    if not check:
+        return
+    traces = []
+    for tid, (sig, what, obj) in enumerate(check):
+        # all traces of one batch share a universe: re-run in the large one (it contains the small ones)
+        be = T.new_backend(obj["backend"], _G["objs_big"], T.BIG_NAMES, ctx.scratch)
+        gv = GitView(_G["objs_big"], ctx.scratch) if (_G["git"] and obj["backend"] == "disk") else None
+        rec = T.Recorder(be, _G["objs_big"], gv, 1)
+        for c in obj["calls"]:
+            be.nstep = 1 if c.get("form") == "item" else 0
+            rec.do(c["op"], tuple(c["n"]), c["old"], c["v"], tuple(c["t"]))
+        be.close()
+        traces.append((T.to_json(tid, rec, T.BIG_NAMES, T.BIG_VALUES, _G["objs_big"]), rec))
+    by_tid = {}
+    T.validate(ctx, traces, "confirmation of unlisted divergences", by_tid)
+    unconfirmed = []
+    for tid, (sig, what, obj) in enumerate(check):
+        if sig in by_tid.get(tid, ()):
+            ctx.violation(sig, what, obj)
+        else:
+            unconfirmed.append(sig)
+            print(f"NOT-REPRODUCED property={ctx.pid} {sig}\n  ({what}) -- the same calls on a fresh container conform; not reported",
+                  flush=True)
+    ctx.cov["not_reproduced"] = unconfirmed[:50]
+    if unconfirmed:
+        ctx.assumptions.append(f"{len(unconfirmed)} divergences seen once did not show again when the same calls were re-executed "
+                               f"(environment, e.g. memory pressure); they are listed under coverage.not_reproduced, not reported")
+
+
 # ------------------------------------------------------------------------------- entry
 def setup(ctx):
     from ..c16_backends import Objects
     use_git = git_available()
     _G["git"] = use_git
+    _G["findings"] = []
     _G["scratch"] = ctx.scratch
     _G["objs"] = Objects(os.path.join(ctx.scratch, "objs2"), 2, use_git)
     _G["objs_big"] = Objects(os.path.join(ctx.scratch, "objs4"), 4, use_git)
@@ -275,6 +330,7 @@ def run(ctx):
             pass
         c16_refname.finish(ctx, name_futs, rec_names, nproc, _G["git"])
         collect_validation(ctx, vfuts, traces)
+        report_findings(ctx)
         collect_models(ctx, futs, graph_cfg)
     ctx.cov["rule"] = (
         "RefMap: (a) every transition of the TLC state graph of RefMapFiles executed on the real DiskRefsContainer from a "
